@@ -13,53 +13,152 @@ import BitstringModel.Props.C03
 import BitstringModel.Props.C03_Range
 import BitstringModel.Props.C03_Replace
 import BitstringModel.Props.C03_Byteswap
+import BitstringModel.Props.C01
+import BitstringModel.Props.C16
 
 namespace BM.C03
 open BM
+open Run
 
 /-! ### whole-object operators -/
 
 /-- `<<=`: `_ilshift` (`_addright(zeros)` then `_truncateleft`) drops `n` bits on the left and fills zeros on the right;
     negative `n` and the empty bitstring are rejected. -/
 theorem ishl_eq_spec (l : Bits) (n : Int) : Alg.ishl l n = Spec.ishl l n := by
-  sorry
+  unfold Alg.ishl Spec.ishl
+  rw [C16.ishl_eq_shl]
+  by_cases h1 : n < 0
+  · simp [C16.shl, h1]
+  by_cases h2 : l.length = 0
+  · simp [C16.shl, h1, h2]
+  simp only [h1, h2, if_false]
+  exact C16.shl_eq_spec l n (by omega) (by intro h; subst h; simp at h2)
 
 theorem ishr_eq_spec (l : Bits) (n : Int) : Alg.ishr l n = Spec.ishr l n := by
-  sorry
+  unfold Alg.ishr Spec.ishr
+  rw [C16.ishr_eq_shr]
+  by_cases h1 : n < 0
+  · simp [C16.shr, h1]
+  by_cases h2 : l.length = 0
+  · simp [C16.shr, h1, h2]
+  simp only [h1, h2, if_false]
+  exact C16.shr_eq_spec l n (by omega) (by intro h; subst h; simp at h2)
 
 /-- `*=`: `_imul` (clear for 0, else the doubling loop) is `n` copies. -/
 theorem imul_eq_spec (l : Bits) (n : Int) : Alg.imul l n = Spec.imul l n := by
-  sorry
+  unfold Alg.imul Spec.imul
+  by_cases h1 : n < 0
+  · simp [h1]
+  simp only [h1, if_false]
+  by_cases h0 : n = 0
+  · subst h0; simp
+  simp only [h0, if_false]
+  rw [C01.imul_eq_replicate l n.toNat (by omega)]
 
 theorem ishl_length (l r : Bits) (n : Int) (h : Spec.ishl l n = .ok r) : r.length = l.length := by
-  sorry
+  unfold Spec.ishl at h
+  split at h
+  · cases h
+  · split at h
+    · cases h
+    · injection h with h; subst h; exact C16.shlSpec_length l _
 
 theorem ishr_length (l r : Bits) (n : Int) (h : Spec.ishr l n = .ok r) : r.length = l.length := by
-  sorry
+  unfold Spec.ishr at h
+  split at h
+  · cases h
+  · split at h
+    · cases h
+    · injection h with h; subst h; exact C16.shrSpec_length l _
 
 theorem imul_length (l r : Bits) (n : Int) (h : Spec.imul l n = .ok r) : r.length = n.toNat * l.length := by
-  sorry
+  unfold Spec.imul at h
+  split at h
+  · cases h
+  · injection h with h; subst h
+    exact C01.length_flatten_replicate l n.toNat
 
 /-- `s &= s`, `s |= s` leave `s` alone; `s ^= s` zeroes it (self as operand). -/
 theorem bitwise_self (l : Bits) :
     Alg.iand l .self = .ok l ∧ Alg.ior l .self = .ok l ∧ Alg.ixor l .self = .ok (List.replicate l.length false) := by
-  sorry
+  refine ⟨?_, ?_, ?_⟩
+  · exact C16.and_self l
+  · exact C16.or_self l
+  · exact C16.xor_self_zero l
 
 /-- `s.append(s)` doubles, `s.prepend(s)` doubles (self as operand). -/
 theorem append_prepend_self (l : Bits) : Alg.append l .self = l ++ l ∧ Alg.prepend l .self = l ++ l := by
-  sorry
+  exact ⟨rfl, rfl⟩
 
 theorem append_frame (l : Bits) (b : Operand) :
     (Alg.append l b).take l.length = l ∧ (Alg.append l b).drop l.length = b.val l ∧
     (Alg.prepend l b).take (b.val l).length = b.val l ∧ (Alg.prepend l b).drop (b.val l).length = l := by
-  sorry
+  unfold Alg.append Alg.prepend
+  refine ⟨?_, ?_, ?_, ?_⟩
+  · exact List.take_left' rfl
+  · exact List.drop_left' rfl
+  · exact List.take_left' rfl
+  · exact List.drop_left' rfl
 
 /-! ### one step -/
 
 /-- Outside the known-deviation regions every operation's code path computes its specification
     (return value / exception and content). -/
 theorem step_eq_partial (l : Bits) (op : Op) (h : op.deviant l = false) : stepAlg l op = stepSpec l op := by
-  sorry
+  cases op with
+  | append b => rfl
+  | prepend b => rfl
+  | insert b pos =>
+    simp only [Op.deviant] at h
+    simp only [stepAlg, stepSpec, insert_eq_spec_partial l b pos h]
+  | overwrite b pos =>
+    simp only [Op.deviant, Bool.or_eq_false_iff] at h
+    simp only [stepAlg, stepSpec, overwrite_eq_spec_partial l b pos h.1 h.2]
+  | delItem i => rfl
+  | delSlice a b c => rfl
+  | setItem i v =>
+    cases v with
+    | int v => simp only [stepAlg, stepSpec, setItemInt_eq_spec]
+    | bits b => simp only [stepAlg, stepSpec, setItemBits_eq_spec]
+  | setSlice a b c v =>
+    cases v with
+    | int v =>
+      simp only [Op.deviant, Bool.or_eq_false_iff] at h
+      simp only [stepAlg, stepSpec, setSliceInt_eq_spec_partial l a b c v h.1 h.2]
+    | bits v => rfl
+  | replace old new s e count al =>
+    simp only [Op.deviant] at h
+    simp only [stepAlg, stepSpec, replace_eq_spec_partial l old new s e count al h]
+  | reverse s e => simp only [stepAlg, stepSpec, reverse_eq_spec]
+  | rol k s e =>
+    simp only [Op.deviant] at h
+    simp only [stepAlg, stepSpec, rol_eq_spec_partial l k s e h]
+  | ror k s e =>
+    simp only [Op.deviant] at h
+    simp only [stepAlg, stepSpec, ror_eq_spec_partial l k s e h]
+  | set v p =>
+    cases p with
+    | all =>
+      have hl : l ≠ [] := by
+        intro hl; subst hl
+        simp [Op.deviant, setAllEmpty] at h
+      simp only [stepAlg, stepSpec, set_all_eq_spec_partial l v hl]
+    | one i => simp only [stepAlg, stepSpec, set_one_eq_spec]
+    | many ps => simp only [stepAlg, stepSpec, set_many_eq_spec]
+    | range a b c =>
+      simp only [Op.deviant] at h
+      simp only [stepAlg, stepSpec, set_range_eq_spec_partial l v a b c h]
+  | invert p => simp only [stepAlg, stepSpec, invert_eq_spec]
+  | byteswap f s e rep =>
+    simp only [Op.deviant] at h
+    simp only [stepAlg, stepSpec, byteswap_eq_spec_partial l f s e rep h]
+  | ishl n => simp only [stepAlg, stepSpec, ishl_eq_spec]
+  | ishr n => simp only [stepAlg, stepSpec, ishr_eq_spec]
+  | imul n => simp only [stepAlg, stepSpec, imul_eq_spec]
+  | iand b => rfl
+  | ior b => rfl
+  | ixor b => rfl
+  | clear => rfl
 
 /-- The full statement `∀ l op, stepAlg l op = stepSpec l op` is false on the pinned tree: one witness per region. -/
 theorem step_eq_witness :
@@ -77,7 +176,7 @@ theorem step_eq_witness :
       stepSpec (List.replicate 6 false) (.setSlice (some 4) (some 0) (some (-1)) (.int 1)) ∧
     stepAlg (natToBits 24 0x010203) (.byteswap (.int 2) (some 0) (some 8) false) ≠
       stepSpec (natToBits 24 0x010203) (.byteswap (.int 2) (some 0) (some 8) false) := by
-  sorry
+  refine ⟨by decide, by decide, by decide, by decide, by decide, by decide, by decide, by decide⟩
 
 /-- Error atomicity: when an operation raises, the content is what it was — for every operation except `set` / `invert`
     over an iterable of positions (lists and ranges), which keep the valid prefix (`set_partial_prefix`). -/
@@ -85,41 +184,176 @@ theorem error_atomic (l : Bits) (op : Op) (e : Err)
     (hop : ∀ v ps, op ≠ .set v (.many ps)) (hop' : ∀ ps, op ≠ .invert (.many ps))
     (hr : ∀ v a b c, op ≠ .set v (.range a b c)) (hr' : ∀ a b c, op ≠ .invert (.range a b c))
     (h : (stepSpec l op).ret = .error e) : (stepSpec l op).bits = l := by
-  sorry
+  cases op with
+  | append b => simp [stepSpec] at h
+  | prepend b => simp [stepSpec] at h
+  | clear => simp [stepSpec] at h
+  | set v p =>
+    cases p with
+    | all => simp [stepSpec, Spec.set, Spec.positions] at h
+    | one i =>
+      simp only [stepSpec, Spec.set, Spec.positions, Spec.applyPrefix] at h ⊢
+      by_cases hv : (PyL.normIdx l.length i).isSome = true
+      · simp [List.takeWhile, hv] at h
+      · simp [List.takeWhile, hv]
+    | many ps => exact absurd rfl (hop v ps)
+    | range a b c => exact absurd rfl (hr v a b c)
+  | invert p =>
+    cases p with
+    | all => simp [stepSpec, Spec.invert, Spec.positions] at h
+    | one i =>
+      simp only [stepSpec, Spec.invert, Spec.positions, Spec.applyPrefix] at h ⊢
+      by_cases hv : (PyL.normIdx l.length i).isSome = true
+      · simp [List.takeWhile, hv] at h
+      · simp [List.takeWhile, hv]
+    | many ps => exact absurd rfl (hop' ps)
+    | range a b c => exact absurd rfl (hr' a b c)
+  | setItem i v => cases v <;> exact atomic_err _ _ _ h
+  | setSlice a b c v => cases v <;> exact atomic_err _ _ _ h
+  | replace old new s e count al => exact atomicRet_err _ _ _ h
+  | byteswap f s e rep => exact atomicRet_err _ _ _ h
+  | _ => exact atomic_err _ _ _ h
 
 /-- The same for the code path (there `set` over a `range` is atomic too): no exception leaves a half-done mutation. -/
 theorem error_atomic_alg (l : Bits) (op : Op) (e : Err)
     (hop : ∀ v ps, op ≠ .set v (.many ps)) (hop' : ∀ ps, op ≠ .invert (.many ps))
     (hr' : ∀ a b c, op ≠ .invert (.range a b c))
     (h : (stepAlg l op).ret = .error e) : (stepAlg l op).bits = l := by
-  sorry
+  cases op with
+  | append b => simp [stepAlg] at h
+  | prepend b => simp [stepAlg] at h
+  | clear => simp [stepAlg] at h
+  | set v p =>
+    cases p with
+    | all =>
+      simp only [stepAlg, Alg.set] at h ⊢
+      by_cases hl : l.length = 0
+      · simp [hl]
+      · simp [hl] at h
+    | one i =>
+      simp only [stepAlg, Alg.set, Alg.setLoop] at h ⊢
+      cases hs : PyL.setIndex l i v with
+      | error e' => rfl
+      | ok l' => simp [hs] at h
+    | many ps => exact absurd rfl (hop v ps)
+    | range a b c =>
+      simp only [stepAlg, Alg.set] at h ⊢
+      split
+      · rfl
+      · rename_i hc
+        simp only [hc, if_false] at h
+        exact atomic_err _ _ _ h
+  | invert p =>
+    cases p with
+    | all => simp [stepAlg, Alg.invert] at h
+    | one i =>
+      simp only [stepAlg, Alg.invert, Alg.invertLoop] at h ⊢
+      generalize (if i < 0 then i + (l.length : Int) else i) = q at h ⊢
+      by_cases hq : ¬(0 ≤ q ∧ q < (l.length : Int))
+      · rw [if_pos hq]
+      · rw [if_neg hq] at h
+        simp at h
+    | many ps => exact absurd rfl (hop' ps)
+    | range a b c => exact absurd rfl (hr' a b c)
+  | setItem i v => cases v <;> exact atomic_err _ _ _ h
+  | setSlice a b c v => cases v <;> exact atomic_err _ _ _ h
+  | replace old new s e count al => exact atomicRet_err _ _ _ h
+  | byteswap f s e rep => exact atomicRet_err _ _ _ h
+  | _ => exact atomic_err _ _ _ h
 
 /-- Operations that are not length-changing by definition keep the length, whatever their arguments. -/
 theorem keepsLength_length (l : Bits) (op : Op) (h : op.keepsLength = true) :
     (stepSpec l op).bits.length = l.length := by
-  sorry
+  cases op with
+  | setItem i v =>
+    cases v with
+    | int v => exact atomic_length _ _ (fun r hr => (setItemInt_frame l r i v hr).1)
+    | bits b => simp [Op.keepsLength] at h
+  | setSlice a b c v =>
+    cases v with
+    | int v => exact atomic_length _ _ (fun r hr => setSliceInt_length l r a b c v hr)
+    | bits b => simp [Op.keepsLength] at h
+  | reverse s e => exact atomic_length _ _ (fun r hr => reverse_length l r s e hr)
+  | rol k s e => exact atomic_length _ _ (fun r hr => rol_length l r k s e hr)
+  | ror k s e => exact atomic_length _ _ (fun r hr => ror_length l r k s e hr)
+  | set v p => exact set_length l v p
+  | invert p => exact invert_length l p
+  | byteswap f s e rep => exact atomicRet_length _ _ (fun k r hr => byteswap_length l r f s e rep k hr)
+  | ishl n => exact atomic_length _ _ (fun r hr => ishl_length l r n hr)
+  | ishr n => exact atomic_length _ _ (fun r hr => ishr_length l r n hr)
+  | iand b => exact atomic_length _ _ (fun r hr => C16.zipOp_length _ l (b.val l) r hr)
+  | ior b => exact atomic_length _ _ (fun r hr => C16.zipOp_length _ l (b.val l) r hr)
+  | ixor b => exact atomic_length _ _ (fun r hr => C16.zipOp_length _ l (b.val l) r hr)
+  | _ => simp [Op.keepsLength] at h
 
 /-! ### histories -/
 
 theorem run_length (step : Bits → Op → Outcome) (ops : List Op) (l : Bits) : (run step ops l).length = ops.length := by
-  sorry
+  induction ops generalizing l with
+  | nil => rfl
+  | cons op ops ih => simp [run, ih]
 
 /-- Histories compose: running `ops₁ ++ ops₂` is running `ops₁`, then `ops₂` on the content it left. -/
 theorem run_append (step : Bits → Op → Outcome) (ops₁ ops₂ : List Op) (l : Bits) :
     run step (ops₁ ++ ops₂) l =
       run step ops₁ l ++ run step ops₂ (((run step ops₁ l).getLast?.map (·.bits)).getD l) := by
-  sorry
+  induction ops₁ generalizing l with
+  | nil => simp [run]
+  | cons op ops ih =>
+    simp only [List.cons_append, run]
+    rw [ih]
+    congr 2
+    cases hr : run step ops (step l op).bits with
+    | nil => simp
+    | cons o os =>
+      have hl : (o :: os).getLast? = some ((o :: os).getLast (by simp)) :=
+        List.getLast?_eq_some_getLast (by simp)
+      simp [hl]
 
 /-- For every finite sequence of operations on one object whose steps stay outside the known-deviation regions,
     the code paths produce exactly the specified observations (return values, exceptions, contents) at every step.
     Full statement (false on the pinned tree, see `step_eq_witness`): `∀ ops l, runAlg ops l = runSpec ops l`. -/
 theorem run_eq_partial (ops : List Op) (l : Bits) (h : goodRun ops l = true) : runAlg ops l = runSpec ops l := by
-  sorry
+  induction ops generalizing l with
+  | nil => rfl
+  | cons op ops ih =>
+    simp only [goodRun, Bool.and_eq_true, Bool.not_eq_true'] at h
+    have hs := step_eq_partial l op h.1
+    show stepAlg l op :: run stepAlg ops (stepAlg l op).bits = stepSpec l op :: run stepSpec ops (stepSpec l op).bits
+    rw [hs]
+    congr 1
+    exact ih _ h.2
 
 /-- Histories made of operations that have no deviation region at all need no side condition. -/
+theorem neverDeviant_not_deviant (l : Bits) (op : Op) (h : op.neverDeviant = true) : op.deviant l = false := by
+  cases op with
+  | setSlice a b c v =>
+    cases v with
+    | int v => simp [Op.neverDeviant] at h
+    | bits v => rfl
+  | set v p =>
+    cases p with
+    | all => simp [Op.neverDeviant] at h
+    | one i => simp [Op.deviant, setAllEmpty]
+    | many ps => simp [Op.deviant, setAllEmpty]
+    | range a b c => simp [Op.neverDeviant] at h
+  | insert b pos => simp [Op.neverDeviant] at h
+  | overwrite b pos => simp [Op.neverDeviant] at h
+  | replace old new s e count al => simp [Op.neverDeviant] at h
+  | rol k s e => simp [Op.neverDeviant] at h
+  | ror k s e => simp [Op.neverDeviant] at h
+  | byteswap f s e rep => simp [Op.neverDeviant] at h
+  | _ => rfl
+
 theorem run_eq_of_neverDeviant (ops : List Op) (l : Bits) (h : ∀ op ∈ ops, op.neverDeviant = true) :
     runAlg ops l = runSpec ops l := by
-  sorry
+  apply run_eq_partial
+  induction ops generalizing l with
+  | nil => rfl
+  | cons op ops ih =>
+    simp only [goodRun, Bool.and_eq_true, Bool.not_eq_true']
+    exact ⟨neverDeviant_not_deviant l op (h op List.mem_cons_self),
+      ih _ (fun o ho => h o (List.mem_cons_of_mem _ ho))⟩
 
 /-! ### non-vacuity -/
 example : goodRun [.insert (.lit [false, true]) 2, .rol 3 (some 1) none, .replace (.lit [true, true]) (.lit [false]) none none (some 2) false,
